@@ -24,7 +24,8 @@ Definition rec_eqb (a b : rec) : bool :=
 Definition obs_eqb (a b : obs) : bool :=
   Bool.eqb (o_ok a) (o_ok b) && zlist_eqb (o_seglens a) (o_seglens b)
   && rds_eqb (o_live a) (o_live b) && rds_eqb (o_reads a) (o_reads b)
-  && rec_eqb (o_rec a) (o_rec b) && rec_eqb (o_rec0 a) (o_rec0 b) && rec_eqb (o_rec1 a) (o_rec1 b).
+  && rec_eqb (o_rec a) (o_rec b) && rec_eqb (o_rec0 a) (o_rec0 b) && rec_eqb (o_rec1 a) (o_rec1 b)
+  && (o_curlen a =? o_curlen b).
 
 (* does the model reproduce the implementation on this case? *)
 Definition model_agrees (c : case) : bool :=
